@@ -876,7 +876,13 @@ func runDeser(c *lib.Ctx, cs caseT) {
 // sqlwkb: ST_AsWKB / ST_GeomFromWKB vs model; predicate: SQL-level round trip
 func runSQLWkb(c *lib.Ctx, cs caseT) {
 	g := toGo(*cs.G, cs.Srid)
+	before := g.Serialize()
 	w, err := asWKB(g)
+	if w2, err2 := asWKB(g); err == nil && (err2 != nil || !bytes.Equal(w, w2) || !bytes.Equal(before, g.Serialize())) {
+		id := c.CaseNoModel(cs, "")
+		c.PredFail(id, "aswkb-changes-its-argument", "ST_AsWKB(g) evaluated twice on the same value differs, or g itself changed, for g="+coqShape(*cs.G), cs)
+		return
+	}
 	if err != nil {
 		id := c.CaseNoModel(cs, "")
 		c.PredFail(id, "aswkb-error", "ST_AsWKB failed: "+err.Error(), cs)
@@ -980,6 +986,25 @@ func runEngine(c *lib.Ctx, cs caseT) {
 	if r.Err != nil || len(r.Rows) != 1 || fmt.Sprint(r.Rows[0][0]) != strings.ToUpper(hex.EncodeToString(w)) || fmt.Sprint(r.Rows[0][1]) != fmt.Sprint(cs.Srid) {
 		fail("engine-store/"+typeNames[cs.G.T], fmt.Sprintf("stored value read back as %v err=%v", r.Rows, r.Err))
 		return
+	}
+	// the stored value next to its own conversions, twice: reading must not change what is stored
+	want := strings.ToUpper(hex.EncodeToString(w))
+	wantTxt := ""
+	if allFinite(*cs.G) {
+		wantTxt, _ = asText(g)
+	}
+	for pass := 0; pass < 2; pass++ {
+		r = s.Query(fmt.Sprintf("SELECT HEX(ST_AsWKB(g)), ST_AsText(g), HEX(ST_AsWKB(ST_GeomFromWKB(ST_AsWKB(g), %d))), HEX(ST_AsWKB(g)), ST_AsText(g) FROM t", cs.Srid))
+		bad := r.Err != nil || len(r.Rows) != 1
+		if !bad {
+			row := r.Rows[0]
+			bad = fmt.Sprint(row[0]) != want || fmt.Sprint(row[2]) != want || fmt.Sprint(row[3]) != want || fmt.Sprint(row[1]) != fmt.Sprint(row[4]) ||
+				(wantTxt != "" && fmt.Sprint(row[1]) != wantTxt)
+		}
+		if bad {
+			fail(fmt.Sprintf("stored-value-changes-when-read/srid%d", cs.Srid), fmt.Sprintf("pass %d: stored g read next to its round trip gives %v err=%v, expected WKB %s text %q", pass+1, r.Rows, r.Err, want, wantTxt))
+			return
+		}
 	}
 	if allFinite(*cs.G) {
 		r = s.Query(fmt.Sprintf("SELECT HEX(ST_AsWKB(ST_GeomFromText(ST_AsText(g), %d))) FROM t", cs.Srid))
@@ -1087,7 +1112,20 @@ func genIndexCase(r *lib.RNG) caseT {
 	pointsOnly := r.Chance(1, 3)
 	n := r.Range(3, 10)
 	ic := &idxCase{}
+	ip := func(x, y int) Pt { return Pt{math.Float64bits(float64(x)), math.Float64bits(float64(y))} }
+	box := func(x0, y0, w, h int) []Pt { return []Pt{ip(x0, y0), ip(x0+w, y0), ip(x0+w, y0+h), ip(x0, y0+h), ip(x0, y0)} }
+	var farRings [][]Pt // second rings lying outside their polygon's first ring
+	twoRing := func() Shape {
+		x0, y0 := r.Range(-6, 2), r.Range(-6, 2)
+		dx, dy := r.Range(6, 12), r.Range(-2, 12)
+		second := box(x0+dx, y0+dy, r.Range(1, 3), r.Range(1, 3))
+		farRings = append(farRings, second)
+		return Shape{T: 3, Rings: [][]Pt{box(x0, y0, r.Range(1, 3), r.Range(1, 3)), second}}
+	}
 	genRow := func() Shape {
+		if !pointsOnly && r.Chance(1, 3) {
+			return twoRing()
+		}
 		if pointsOnly {
 			return Shape{T: 1, Pts: []Pt{genPt(r, o)}}
 		}
@@ -1110,7 +1148,20 @@ func genIndexCase(r *lib.RNG) caseT {
 				break
 			}
 		}
-		if r.Chance(1, 4) {
+		if len(farRings) > 0 && r.Chance(1, 3) {
+			// a probe that only meets the far second ring of some row
+			fr := lib.Pick(r, farRings)
+			switch r.Intn(3) {
+			case 0:
+				lit = Shape{T: 1, Pts: []Pt{fr[r.Intn(4)]}}
+			case 1:
+				lit = Shape{T: 2, Pts: []Pt{fr[0], fr[2]}}
+			default:
+				lit = Shape{T: 3, Rings: [][]Pt{fr}}
+			}
+		} else if r.Chance(1, 6) {
+			lit = twoRing()
+		} else if r.Chance(1, 4) {
 			// an axis-parallel box, the typical query window
 			x0, y0 := r.Range(-6, 8), r.Range(-6, 8)
 			x1, y1 := x0+r.Range(1, 8), y0+r.Range(1, 8)
@@ -1213,6 +1264,13 @@ func main() {
 			{Kind: "engine", Srid: 4326, G: &nested},
 			{Kind: "deser", Srid: 0, Buf: "010200000003000000" + strings.Repeat("00", 32), Note: "truncated"},
 			{Kind: "deser", Srid: 0, Buf: "0000000001" + "3ff0000000000000" + "4000000000000000", Note: "intact-mixed-byte-order"},
+			{Kind: "engine", Srid: 4326, G: &Shape{T: 2, Pts: []Pt{pb(1, 2), pb(3, 40), pb(-5, 6)}}},
+			{Kind: "sqlwkb", Srid: 4326, G: &Shape{T: 7, Geoms: []Shape{{T: 2, Pts: []Pt{pb(1, 2), pb(3, 40)}}, {T: 5, Rings: [][]Pt{{pb(7, 8), pb(9, 10)}}}}}},
+			{Kind: "index", Idx: &idxCase{
+				Rows: []string{"POLYGON((0 0,2 0,2 2,0 2,0 0),(10 10,12 10,12 12,10 12,10 10))", "POINT(11 11)", "POLYGON((0 0,1 0,1 1,0 1,0 0))", "LINESTRING(10 10,12 12)"},
+				Queries: []string{"ST_Intersects(g, ST_GeomFromText('POINT(10 10)'))", "ST_Intersects(g, ST_GeomFromText('LINESTRING(9 11,13 11)'))",
+					"ST_Intersects(ST_GeomFromText('POLYGON((0 0,2 0,2 2,0 2,0 0),(10 10,12 10,12 12,10 12,10 10))'), g)",
+					"ST_Intersects(g, ST_GeomFromText('POLYGON((10 10,12 10,12 12,10 12,10 10))'))"}}},
 			{Kind: "bbox"},
 			{Kind: "bbox", Box: [][2]int64{{1, 2}, {-3, 7}, {0, 0}}},
 			{Kind: "index", Idx: &idxCase{
